@@ -7,6 +7,9 @@ DynaMOSA goal manager keeps every uncovered goal.  C13.iterable: update archives
 generator of the same solutions.  C13.aliasing: archived solutions reach
 local search, which edits test cases in place, only through clone().  Re-execution behaviour of
 archived tests is not decided.
+Further clauses (added later): C13.aliasing (taint): archived solutions reach local search only through
+clone(). C13.iterable: update archives the same goals for a list, a tuple, an iterator and a generator of the
+same solutions.
 """
 
 from __future__ import annotations
